@@ -31,3 +31,6 @@ def run(ctx):
     S.r02_6_extraneous(ctx)
     S.r04_7_strip_before_construct(ctx, 'R02.7')
     R.r05_3_pairs(ctx, 'R02.8')
+    S.r02_9_requiredness(ctx)
+    R.r05_7_defaults(ctx, 'R02.10')
+    S.r04_5_strip_tags(ctx, 'R02.11')
